@@ -105,6 +105,11 @@ structure SolverObs.Sound {m n : Nat} (A : Matrix (Fin m) (Fin n) K) (S : Finset
   /-- C20/C02: defect = n − rank A -/
   rank : o.defect + A.rank = n
 
+/-- every unknown in the support of the kernel of `A` causes the removal `rc` (same point, same
+    coordinate group); `us` is `unknowns_` -/
+def KernelClass {m n : Nat} (A : Matrix (Fin m) (Fin n) K) (us : List Unknown) (rc : String × Rm) : Prop :=
+  ∀ g, A *ᵥ g = 0 → ∀ (i : Fin n) (u : Unknown), g i ≠ 0 → us[i.val]? = some u → removalOf u = rc
+
 section Sound
 variable {m n : Nat} {A : Matrix (Fin m) (Fin n) K} {S : Finset (Fin n)} {o o' : SolverObs K}
 
@@ -260,8 +265,7 @@ theorem worldOf_sim_single_class
     (hS' : ∀ net, (solver' (pe net).prob).Sound (lin (pe net).prob).A (lin (pe net).prob).S)
     (hq : ∀ net i, 1 ≤ i → i ≤ (pe net).unknowns.length → (solver (pe net).prob).refused = none →
       (solver (pe net).prob).qxx i = (solver' (pe net).prob).qxx i)
-    (hone : ∀ net, ∃ rc : String × Rm, ∀ g, (lin (pe net).prob).A *ᵥ g = 0 →
-      ∀ (i : Fin (lin (pe net).prob).n) u, g i ≠ 0 → (pe net).unknowns[i.val]? = some u → removalOf u = rc) :
+    (hone : ∀ net, ∃ rc : String × Rm, KernelClass (lin (pe net).prob).A (pe net).unknowns rc) :
     ((worldOf pe solver).abs m0).Sim ((worldOf pe solver').abs m0) := by
   apply worldOf_sim_of_first pe solver solver' lin m0 hS hS' hq
   intro net
